@@ -34,4 +34,14 @@ _d('ec_dec_bit_logp', replace=['ec_dec_normalize'])
 _d('ec_dec_bits', replace=['ec_read_byte_from_end'], unwind=6, cls='F')
 _d('ec_dec_init', replace=['ec_read_byte', 'ec_dec_normalize'])
 _d('ec_dec_icdf', replace=['ec_dec_normalize'])
+_LS = dict(cls='P', tu='C08_lockstep.c', unwind=5, canary='real', timeout=600,
+           replace=['ec_enc_carry_out', 'ec_read_byte', 'ec_read_byte_from_end', 'ec_write_byte_at_end'])
+GROUPS += [
+ dict(_LS, name='ls_bit_logp', entry='h_ls_bit_logp', functions=['ec_enc_bit_logp', 'ec_dec_bit_logp', 'ec_tell', 'ec_tell_frac'], what='lock-step of ec_enc_bit_logp / ec_dec_bit_logp (real bodies, symbolic states)'),
+ dict(_LS, name='ls_bin', entry='h_ls_bin', functions=['ec_encode_bin', 'ec_decode_bin', 'ec_dec_update'], what='lock-step of ec_encode_bin / ec_decode_bin + ec_dec_update'),
+ dict(_LS, name='ls_freq', entry='h_ls_freq', functions=['ec_encode', 'ec_decode', 'ec_dec_update'], what='lock-step of ec_encode / ec_decode + ec_dec_update (ft <= 2^16)'),
+ dict(_LS, name='ls_bits', entry='h_ls_bits', unwind=6, functions=['ec_enc_bits', 'ec_dec_bits'], what='lock-step of ec_enc_bits / ec_dec_bits'),
+ dict(name='tell_frac', cls='P', tu='C08_lockstep.c', entry='h_tell_frac', dfcc=False, unwind=5, timeout=300, functions=['ec_tell_frac', 'ec_tell'],
+      what='ec_tell_frac table version == reference recurrence; bracketed by 8*ec_tell, every normalised rng'),
+]
 META = {'enforced_elsewhere': ['ec_write_byte', 'ec_write_byte_at_end', 'ec_enc_carry_out', 'ec_enc_normalize', 'ec_encode', 'ec_enc_bits', 'ec_read_byte', 'ec_read_byte_from_end', 'ec_dec_normalize']}
